@@ -10,6 +10,7 @@ use world::monitors::c05_revoke::RevokeMonitor;
 use world::monitors::c09_order::OrderMonitor;
 use world::monitors::c10_restart::RestartMonitor;
 use world::monitors::pay::PayMonitor;
+use world::monitors::c12_serial::SerialMonitor;
 use world::monitors::Monitor;
 use world::run::{run_one, Crash, Profile};
 
@@ -23,7 +24,8 @@ fn main() {
 		prof.steps = s.parse().unwrap();
 	}
 	let runs = args.num("runs", 160, 8000);
-	let make = || -> Vec<Box<dyn Monitor>> { vec![Box::new(CommitMonitor::new()), Box::new(RevokeMonitor::new()), Box::new(OrderMonitor::new()), Box::new(RestartMonitor::new()), Box::new(PayMonitor::new())] };
+	let with_serial = args.prop == "C12";
+	let make = move || -> Vec<Box<dyn Monitor>> { let mut v: Vec<Box<dyn Monitor>> = vec![Box::new(CommitMonitor::new()), Box::new(RevokeMonitor::new()), Box::new(OrderMonitor::new()), Box::new(RestartMonitor::new()), Box::new(PayMonitor::new())]; if with_serial { v.push(Box::new(SerialMonitor::new())); } v };
 	let only: Option<u64> = args.kv.get("only_run").map(|s| s.parse().unwrap());
 	let mode = args.kv.get("mode").cloned().unwrap_or_else(|| "random".to_string());
 	let mut i = args.shard;
